@@ -53,3 +53,10 @@ Proof. vm_compute. reflexivity. Qed.
 
 Theorem current_source_crash_safe : forall es, good current_ccfg (run current_ccfg es) = true.
 Proof. exact (crash_safe_all_histories current_ccfg current_source_crash_ok). Qed.
+
+(** C09: the second look-up of memento_run_local happens inside the per-call mutex, and every
+    public MemoryCache method holds the cache's lock *)
+Lemma recheck_inside_mutex_ok : recheck_inside_mutex = Some true.
+Proof. vm_compute. reflexivity. Qed.
+Lemma cache_methods_locked_ok : cache_methods_locked = Some true.
+Proof. vm_compute. reflexivity. Qed.
